@@ -1101,7 +1101,14 @@ func (db *DB) reWriteData(pendingMergeEntries []*Entry) error {
 			return err
 		}
 	}
-	tx.Commit()
+	// A rewrite that could not be committed (a write error, a segment that could
+	// not be created) must stop the Merge: the caller goes on to remove the old
+	// segment, and with the error dropped here its live records were lost.
+	if err := tx.Commit(); err != nil {
+		tx.Rollback()
+		db.isMerging = false
+		return err
+	}
 	return nil
 }
 
